@@ -63,10 +63,14 @@ func ForLookup(domain string) (string, error) {
 
 	// Side note: strings.ToLower does not support full case-folding, so it is
 	// important to apply NFC normalization first.
-	uDomain = norm.NFC.String(uDomain)
-	// The lower case form is not necessarily composed: U+03AA U+0301 is, but
-	// U+03CA U+0301 it becomes is U+0390 in NFC.
-	uDomain = norm.NFC.String(strings.ToLower(uDomain))
+	// The letters are converted to lower case in the decomposed form and
+	// the result is composed again. The lower case form of a composed string
+	// is not necessarily composed (U+03AA U+0301 is, but U+03CA U+0301 it
+	// becomes is U+0390 in NFC), and the capital letter of a composed
+	// character can have another lower case form than the one of its base
+	// letter (U+0130 is 'I' with a dot above, its lower case form is a plain
+	// 'i' while 'i' with a dot above is what matches it).
+	uDomain = norm.NFC.String(strings.ToLower(norm.NFD.String(uDomain)))
 	uDomain = strings.TrimSuffix(uDomain, ".")
 	return uDomain, nil
 }
